@@ -140,8 +140,14 @@ def mesh_dataset(ctx, mesh, supply, start_index, fill, transposed=False, fill_va
         # a mesh without any edges: no edge dimension, no edge data
         data = {k: v for k, v in data.items() if 'nedge' not in v[0]}
         ne = None
+    extra = dict(extra or {})
+    two_name = extra.pop('two_name', None)
     ds = builders.ugrid(mesh, supply=supply, start_index=start_index, fill=fill, transposed=transposed, with_edges=with_edges, data_vars=data,
-                        edge_order=edge_order, fill_value=fill_value, coords_as_coords=coords_as_coords, dtype=dtype, **(extra or {}))
+                        edge_order=edge_order, fill_value=fill_value, coords_as_coords=coords_as_coords, dtype=dtype, **extra)
+    if two_name and 'Two' in ds.dims:
+        # UGRID does not name the size-two dimension of the edge tables; the dataset has another dimension of length two (t)
+        ds = ds.rename({'Two': two_name})
+        ds = ds[[n for n in ds.variables if 't' in ds[n].dims] + [n for n in ds.variables if 't' not in ds[n].dims]]
     ds['p_face'].encoding.update(dtype=numpy.dtype('int16'), scale_factor=0.01, _FillValue=numpy.int16(-1))
     ds = ds.assign_coords(t=(('t',), numpy.array([10.0, 20.0])))
     ds.attrs['title'] = 'clip me'
@@ -468,6 +474,9 @@ def cases(tier, check='values'):
                              # a node that no face uses: clipping with a geometry that covers every face still drops it
                              ('tqpx', ('edge_node', 'face_edge'), dict(start_index=0, fill='nan')),
                              ('tqpx', ('edge_node',), dict(start_index=1, fill='attr')),
+                             # edges described by edge_face / face_edge only, the size-two dimension called nv, time (length 2) first
+                             ('tqp', ('face_edge', 'edge_face'), dict(start_index=0, fill='nan', extra=dict(two_name='nv'))),
+                             ('tqp', ('edge_node', 'edge_face'), dict(start_index=1, fill='nan', extra=dict(two_name='nv'))),
                              # a square connectivity table (four quads) stored with the face dimension last
                              ('qqqq', ('edge_node',), dict(start_index=0, fill='nan', transposed=True)),
                              ('qqqq', ('edge_node', 'face_edge'), dict(start_index=1, fill='nan', transposed=True)),
@@ -481,6 +490,11 @@ def cases(tier, check='values'):
                              ('tqp', ('edge_node', 'edge_face'), dict(start_index=0, fill='attr', dtype='int16', fill_value=-1))):
         yield Case(f'{check}:mesh:{mesh}:{"+".join(supply)}:start{kw["start_index"]}:{kw["fill"]}:fill{kw.get("fill_value")}:coords{int(kw.get("coords_as_coords", False))}:edges{int(kw.get("with_edges", True))}:{kw.get("dtype", "int32")}{":" + "+".join(kw["extra"]) if kw.get("extra") else ""}{":transposed" if kw.get("transposed") else ""}:buf0:clip', body_mesh,
                    dict(mesh=mesh, supply=supply, buffer=0, via='clip', check=check, **kw), patches=_patches, max_paths=2000)
+    # one-based integer tables whose fill value 0 is kept as an attribute; one ring of neighbours
+    for buffer in (0, 1):
+        yield Case(f'{check}:mesh:qqqtt:edge_node:start1:attr:fill0:buf{buffer}:clip', body_mesh,
+                   dict(mesh='qqqtt', supply=('edge_node',), start_index=1, fill='attr', fill_value=0, buffer=buffer, via='clip', check=check),
+                   patches=_patches, max_paths=2000)
     for mesh, supply in (('tqp', ('edge_node', 'edge_face', 'face_face')), ('qqq', ('edge_node', 'face_edge', 'edge_face'))):
         yield Case(f'{check}:mesh:{mesh}:{"+".join(supply)}:start1:nan:buf0:dup_faces', body_mesh,
                    dict(mesh=mesh, supply=supply, start_index=1, fill='nan', buffer=0, via='dup_faces', check=check), patches=_patches, max_paths=2000)
